@@ -34,6 +34,7 @@
 
 #include <stdlib.h>
 #include <string.h>
+#include <limits.h>
 
 /* Structure of a Fujitsu SADUMP file.
  *
@@ -91,6 +92,10 @@ struct efi_guid {
 	uint16_t data3;		/**< (big-endian) GUID part #3 */
 	uint8_t  data4[8];	/**< (big-endian) GUID part #4 and #5 */
 } __attribute__((packed));
+
+/** Maximum value of an off_t. */
+#define OFF_MAX	\
+	((off_t)(((uintmax_t)1 << (sizeof(off_t) * CHAR_BIT - 1)) - 1))
 
 #define SADUMP_PART_SIGNATURE0	0x75646173 /**< 'sadu' */
 #define SADUMP_PART_SIGNATURE1	0x0000706d /**< 'mp\0\0' */
@@ -1052,6 +1057,11 @@ open_common(kdump_ctx_t *ctx, unsigned fidx,
 			/* disk contains only partition header + data */
 			struct sadump_disk_extents *ext =
 				&sp->ext[set_disk_set - 1];
+			if (used_device < sp->block_size ||
+			    used_device > OFF_MAX)
+				return set_error(ctx, KDUMP_ERR_CORRUPT,
+						 "Invalid used device size: %llu",
+						 (unsigned long long) used_device);
 			ext->data_pos = sp->block_size;
 			ext->data_len = used_device - sp->block_size;
 			ext->fidx = fidx;
@@ -1100,6 +1110,10 @@ open_common(kdump_ctx_t *ctx, unsigned fidx,
 	dsi->bmp_pos = sp->mem_pagemap_off + sp->mem_pagemap_size;
 	sp->ext[0].data_pos = dsi->bmp_pos +
 		sp->block_size * dump32toh(ctx, sh.dumpable_bitmap_blocks);
+	if (used_device < sp->ext[0].data_pos || used_device > OFF_MAX)
+		return set_error(ctx, KDUMP_ERR_CORRUPT,
+				 "Invalid used device size: %llu",
+				 (unsigned long long) used_device);
 	sp->ext[0].data_len = used_device - sp->ext[0].data_pos;
 	sp->ext[0].fidx = fidx;
 	return KDUMP_OK;
